@@ -10,6 +10,14 @@ if log and os.path.exists(log):
         m = re.match(r'(detected|MISSED|SKIPPED)\s+(C\d+)\s+seeded/(\S+)/patch.diff\s*(.*)', line)
         if m:
             det[m.group(3)] = (m.group(1), m.group(4).strip())
+blind = {}
+bt = os.path.join(root, 'seeded', 'round2_blind.tsv')
+if os.path.exists(bt):
+    for line in open(bt):
+        if line.startswith('#') or line.startswith('id\t') or not line.strip():
+            continue
+        f = line.rstrip('\n').split('\t')
+        blind[f[0]] = {'result_with_the_checks_committed_when_it_arrived': f[1], 'reported_by_or_rule_added_afterwards': f[2] if len(f) > 2 else ''}
 for d in sorted(os.listdir(os.path.join(root, 'seeded'))):
     p = os.path.join(root, 'seeded', d)
     am = os.path.join(p, 'agent_meta.json')
@@ -25,7 +33,7 @@ for d in sorted(os.listdir(os.path.join(root, 'seeded'))):
     meta = {
         'id': d,
         'property': a.get('property', d.split('-')[0]),
-        'round': prev.get('round', 1),
+        'round': 2 if re.search(r'-2[AB]$', d) else 1,
         'written_by': 'fresh sub-agent given only the property text and a scratch worktree of /repo',
         'summary': a.get('summary'),
         'why_it_breaks': a.get('why_it_breaks'),
@@ -41,7 +49,7 @@ for d in sorted(os.listdir(os.path.join(root, 'seeded'))):
         'detection': {'status': status, 'first_reported_obligation': rule,
                       'how': 'tools/mut.sh: patch applied to a scratch worktree, ./run.sh <property> quick, exit 1 = reported'},
     }
-    if 'blind' in prev:
-        meta['blind'] = prev['blind']
+    if d in blind:
+        meta['blind'] = blind[d]
     json.dump(meta, open(os.path.join(p, 'meta.json'), 'w'), indent=1)
 print('ok')
